@@ -162,6 +162,9 @@ def first_day_offset(ctx, fill, S):
         return node is not None and cfg.can_reach(hdr, node) and cfg.can_reach(node, hdr)
 
     def delta(stmt):
+        if isinstance(stmt, ast.Assign):
+            v = stmt.value
+            return facts.day_delta(v.right) * (1 if isinstance(v.op, ast.Add) else -1)
         k = facts.day_delta(stmt.value)
         if k is None or not isinstance(stmt.op, (ast.Add, ast.Sub)):
             return None
@@ -169,8 +172,22 @@ def first_day_offset(ctx, fill, S):
 
     offsets = {}            # possible offset before the loop -> statement that produced it
     pre_steps, loop_steps = [], []
+    class _Step:           # `d = d +/- k days` written as a plain assignment: the same as `d += ..`
+        def __init__(self, d, k):
+            self.node, self.k = d.node, k
+            self.stmt = d.stmt
+
+    def assign_step(d):
+        v = d.value
+        if d.kind == 'assign' and isinstance(v, ast.BinOp) and isinstance(v.op, (ast.Add, ast.Sub)) and isinstance(v.left, ast.Name) and \
+                v.left.id == dvar.id and facts.day_delta(v.right) is not None:
+            return facts.day_delta(v.right) * (1 if isinstance(v.op, ast.Add) else -1)
+        return None
+
     for d in fl.defs_of(dvar.id):
-        if d.kind == 'assign' and not in_loop(d.node):
+        if assign_step(d) is not None:
+            (loop_steps if in_loop(d.node) else pre_steps).append(_Step(d, assign_step(d)))
+        elif d.kind == 'assign' and not in_loop(d.node):
             v = ex.expand(d.value, d.node, stop={start_p})
             k = 0
             base = v
